@@ -532,6 +532,7 @@ def chk_seq(acc, s, cid, views=False, frames=False):
         _seq_level(acc, fam, kind, seq, s, cid, table, plain[fam],
                    lambda sig, extra, got, want: _fail(acc, sig, dict(case, **extra), got, want))
     if frames:
+        chk_select(acc, s, cid)
         so = objs[0][2]
         old = I["og"].get_code(cid)
         want = o_frames(table, s)
@@ -548,6 +549,42 @@ def chk_seq(acc, s, cid, views=False, frames=False):
             if r != ("ok", w) and not (r == ("err", "ValueError") and 0 < len(s) < 3):
                 _fail(acc, "app.translate.translate_frames: " + ("amino acids" if r[0] == "ok" else f"raised {r[1]}"),
                       dict(case, allow_rc=allow_rc), r, w)
+
+
+_SELECT_APPS = {}
+
+
+def chk_select(acc, s, cid):
+    """the select_translatable app with allow_rc=True: where exactly one of the six frames is free of internal stops, the
+    sequence it returns is that frame's codons (read from the reverse complement for a minus frame), terminal stop trimmed"""
+    I = impl()
+    table = GOLD[cid]["aa"]
+    if len(s) < 3:
+        return
+    trs = [t[:-1] if t.endswith("*") else t for t in o_frames(table, s)]
+    clean = [i for i, t in enumerate(trs) if "*" not in t]
+    if len(clean) != 1:
+        return  # none (the app drops the sequence) or several (which one is chosen is a tie-break, not a property)
+    i = clean[0]
+    r = s if i < 3 else o_rc(s)
+    off = i % 3
+    n = (len(r) - off) // 3
+    want = r[off:off + 3 * n]
+    if n and table[cidx(want[-3:])] == "*":
+        want = want[:-3]
+    case = {"part": "select", "s": s, "code": cid}
+    acc.case(("select_translatable", s, cid), nontrivial=i >= 3)
+    if cid not in _SELECT_APPS:
+        from cogent3 import get_app
+
+        _SELECT_APPS[cid] = get_app("select_translatable", gc=cid, allow_rc=True, trim_terminal_stop=True)
+    coll = I["oa"].SequenceCollection({"a": s}, moltype="dna")
+    got = call(lambda: str(_SELECT_APPS[cid](coll).to_dict()["a"]))
+    acc.outcome(("select", i, got[0]))
+    if got != ("ok", want):
+        strand = "reverse strand frame" if i >= 3 else "forward strand frame"
+        _fail(acc, f"app.translate.select_translatable(allow_rc=True): " + ("selected sequence is not the codons of the only stop-free frame" if got[0] == "ok" else f"raised {got[1]}") + f" [{strand} {i % 3 + 1}]",
+              case, got, want)
 
 
 # ----------------------------------------------------------------------------- part: collections and the app
@@ -962,6 +999,8 @@ def replay(case):
         chk_gapped_stops(acc, case["order"])
     elif part == "translate":
         chk_translate(acc, case["s"], case["code"])
+    elif part == "select":
+        chk_select(acc, case["s"], case["code"])
     elif part == "seq":
         chk_seq(acc, case["s"], case["code"], views=case.get("views", False), frames=case.get("frames", False))
     elif part == "coll":
